@@ -538,9 +538,11 @@ def _open_sites(prog, cg, reach):
                 args = [a for a in children(n) if a.get('kind') != 'CXXDefaultArgExpr']
                 if len(args) != 1:
                     continue
-                at = strip(args[0]).get('type') or ''
-                if 'sqlite::database' in at:
-                    continue    # copy / move of a handle
+                a0 = strip(args[0])
+                ct = (n.get('ctorType') or '').replace('sqlite::', '')
+                if any('sqlite::database' in (a0.get(k) or '') for k in ('type', 'dtype')) or \
+                        re.match(r'void \((const )?database &&?\)', ct):
+                    continue    # copy / move of a handle (also of a by-value parameter through std::move)
                 out.append((f, n, args[0]))
     return out
 
@@ -608,7 +610,7 @@ def _existence_guards(prog, func, before_node):
     return [sp for sp, pol in sorted(facts, key=str) if pol]
 
 
-def prove_exists(prog, cg, rev, func, node, sp, depth=0, tested=None):
+def prove_exists(prog, cg, rev, func, node, sp, depth=0, tested=None, proved=None):
     """Is the file `sp` known to exist on every way from the roots (whose call edges are `rev`) to
     `node` in func?  Discharged by func itself, or by every caller with its arguments substituted."""
     fl = existence_flow(prog, cg)
@@ -620,13 +622,15 @@ def prove_exists(prog, cg, rev, func, node, sp, depth=0, tested=None):
     if sp is None:
         return False
     if (sp, True) in facts:
+        if proved is not None:
+            proved.append(sp)
         return True
     callers = rev.get(func.key, [])
     if not callers or depth >= 4:
         return False
     for g, cn in callers:
         sp2 = _subst_sp(sp, _bind_args(prog, g, cn, func))
-        if not prove_exists(prog, cg, rev, g, cn, sp2, depth + 1, tested):
+        if not prove_exists(prog, cg, rev, g, cn, sp2, depth + 1, tested, proved):
             return False
     return True
 
@@ -677,6 +681,100 @@ def guarded_opens(prog, cg, eff, chk, rid, roots, consequence=None):
                           '%s: not every way of reaching it has tested this very path (known to exist there: %s): %s'
                           % (inst, sorted(set(tested)), open_why))
     return n
+
+
+def _atoms(fm, out):
+    if fm[0] == 'exists':
+        if fm[1] is not None:
+            out.add(fm[1])
+    elif fm[0] in ('not', 'and', 'or'):
+        for x in fm[1:]:
+            _atoms(x, out)
+    return out
+
+
+def _norm_dir(sp):
+    """A path relative to the library directory, whatever the parameter holding the directory is called."""
+    return tuple(x if isinstance(x, str) else ('param', 'directory') for x in sp)
+
+
+def creators_refuse_existing(prog, cg, eff, chk, rid):
+    """A library is created only where none exists.  On every way from create_database to a statement
+    that opens / attaches a file of a new on-disk library, every file the load side probes (layout
+    detection) or demands (the loaders' own existence tests) is known to be absent: the refusal may be
+    a guard of the opening function, of a caller, or of an `ensure_...` helper, written with ||, a
+    named flag or std::any_of over the list of files.  A way on which the opened file is known to
+    exist is a loading way and carries no obligation."""
+    fl = existence_flow(prog, cg)
+    det = prog.func('djinterop::engine::detect_is_database2')
+    probed = set()
+    for n in walk(det.body):
+        if n.get('kind') == 'CallExpr' and 'bool' in (n.get('type') or ''):
+            for sp in _atoms(fl.formula(det, n), set()):
+                if len(sp) > 1:
+                    probed.add(_norm_dir(sp))
+    if len(probed) < 2:
+        raise AnalysisBroken('detect_is_database2 probes %d file(s); expected the m.db of both layouts' % len(probed))
+    lroot = prog.func('djinterop::engine::load_database', 'engine_schema &')
+    les, lreach = eff.transitive([lroot])
+    lrev = _rev_edges(cg, lreach)
+    for e in les:
+        if e.cls == 'attach' and e.site is not None and e.site.binds:
+            got = []
+            if prove_exists(prog, cg, lrev, e.func, e.site.node, _sym_path(prog, e.func, e.site.binds[0]), proved=got):
+                probed.update(_norm_dir(sp) for sp in got if len(sp) > 1)
+    root = prog.func('djinterop::engine::create_database')
+    es, reach = eff.transitive([root])
+    rev = _rev_edges(cg, reach)
+
+    def missing_on(f, node, sp, acc, depth):
+        """[set of probed paths not refused] per way of reaching node on which the file is created."""
+        facts = fl.facts_at(f, node)
+        if facts is None or (sp is not None and (sp, True) in facts):
+            return []
+        acc = acc | frozenset(p for p, pol in facts if not pol)
+        gap = probed - set(_norm_dir(p) for p in acc)
+        if not gap:
+            return []
+        callers = rev.get(f.key, [])
+        if not callers or depth >= 4:
+            return [gap]
+        out = []
+        for g, cn in callers:
+            m = _bind_args(prog, g, cn, f)
+            acc2 = frozenset(x for x in (_subst_sp(p, m) for p in acc) if x is not None)
+            out += missing_on(g, cn, _subst_sp(sp, m), acc2, depth + 1)
+        return out
+    sites = []
+    for e in es:
+        if e.cls == 'attach' and e.site is not None and e.site.binds:
+            sites.append((e.func, e.site.node, _sym_path(prog, e.func, e.site.binds[0])))
+    for f, node, arg in _open_sites(prog, cg, reach):
+        sp = _sym_path(prog, f, arg)
+        if sp != (':memory:',):
+            sites.append((f, node, sp))
+    openers = {}
+    for f, node, sp in sites:
+        tested = []
+        if prove_exists(prog, cg, rev, f, node, sp, tested=tested):
+            continue        # every way to it demands the file: a loader reached through the class hierarchy
+        openers.setdefault(f.key, (f, []))[1].extend(missing_on(f, node, sp, frozenset(), 0))
+    if not openers:
+        raise AnalysisBroken('create_database reaches no function that opens a database file')
+    for key, (f, gaps) in sorted(openers.items(), key=lambda kv: kv[1][0].qualname):
+        chk.analysed(f)
+        short = f.qualname.replace('djinterop::engine::', '')
+        missing = sorted(set().union(*gaps), key=str) if gaps else []
+        if not missing:
+            chk.ok(rid, '%s opens the files of a new library only where %s are known to be absent' % (
+                short, ', '.join(_show_path(x) for x in sorted(probed, key=str))), locstr(f.node))
+        else:
+            chk.violation(rid, '%s|creates over %s' % (short, ', '.join(_show_path(x) for x in missing)),
+                          locstr(f.node),
+                          '%s opens the files of a new library without refusing when %s is already there: '
+                          'create_database then succeeds in a directory that holds a library, and load_database '
+                          'rejects a directory with both layouts - the library just created is not recognised on '
+                          'load' % (short, ' / '.join(_show_path(x) for x in missing)))
 
 
 def handle_state_untouched(prog, cg, chk, E6, obs):
